@@ -649,6 +649,21 @@ class Evaluator:
                                 self.bind(t, val, st2, s)
                         yield st2, None
                 return
+        if isinstance(s, (ast.Assign, ast.Return)) and isinstance(s.value, ast.IfExp) and any(isinstance(x, ast.Call) for arm in (s.value.body, s.value.orelse) for x in ast.walk(arm)):
+            c = self.ev(s.value.test, st)
+            v = lookup(st.decided, c)
+            arms = [(True, s.value.body), (False, s.value.orelse)] if v is None else [(v, s.value.body if v else s.value.orelse)]
+            if len(arms) == 2 and _strip_not(c)[1]:
+                arms.reverse()
+            for i, (val, arm) in enumerate(arms):
+                st2 = st.fork() if i < len(arms) - 1 else st
+                assume(st2.decided, c, val)
+                lc, lv = literal(c, val)
+                st2.conds.append((lc, lv))
+                self.emit(st2, "cond", (lc, lv), s)
+                one = ast.copy_location(ast.Assign(targets=s.targets, value=arm), s) if isinstance(s, ast.Assign) else ast.copy_location(ast.Return(value=arm), s)
+                yield from self.stmt(one, st2)
+            return
         if isinstance(s, ast.Expr):
             if isinstance(s.value, ast.Constant):
                 yield st, None
